@@ -287,6 +287,8 @@ type Obligation struct {
 	queries  []*Term // terms to evaluate in a model
 	qnames   []string
 	Trivial  bool    // goal folded to true syntactically
+	retVals  Val     // cover.return: the values returned on this path (conformance runs)
+	retSt    *State  // cover.return: the final state of this path
 	Hints    []*Term // cover obligations only: extra equalities that pick one concrete witness (sound: sat with hints implies sat without)
 	TimeoutS int     // per-function override of the quick-tier solver timeout
 
@@ -339,6 +341,8 @@ type Exec struct {
 	locals       []*Region
 	stack        []*ssa.Function
 	forceInline  bool
+	convRange    []*Term // in-range conditions of the float->int conversions met so far
+	abstractions int     // contract applications, invariant-cut loops and assumed externals met so far (conformance runs need 0)
 	noCut        bool
 	yieldMode    bool // second run of a function with 'yields' clauses: loops unrolled, results must be terms over the arguments
 	prune        bool
